@@ -1,8 +1,11 @@
-"""Self-validation: behaviour-preserving edits of /repo must leave every check at exit 0.
+"""Self-validation: behaviour-preserving edits of hexane360/pane must leave every check at exit 0.
+The patch is applied to a scratch worktree of /repo under /tmp (never to /repo itself); the checks are
+pointed at it with PANE_VERIF_REPO and write their evidence / replays into a scratch directory.
 usage: /venv/bin/python -m harness.noalarm <noalarm dir> <check id>..."""
 from __future__ import annotations
 
 import os
+import shutil
 import subprocess
 import sys
 
@@ -10,27 +13,31 @@ VERIF = os.path.dirname(os.path.dirname(os.path.abspath(__file__)))
 
 
 def main():
-    d, checks = sys.argv[1].rstrip('/'), sys.argv[2:]
-    st = subprocess.run(['git', '-C', '/repo', 'status', '--porcelain', '--untracked-files=no'], capture_output=True, text=True)
-    if st.stdout.strip():
-        print('refusing: /repo has uncommitted changes')
-        return 2
-    ap = subprocess.run(['git', '-C', '/repo', 'apply', os.path.join(d, 'patch.diff')], capture_output=True, text=True)
-    if ap.returncode:
-        print('patch does not apply:', ap.stderr[-300:])
-        return 2
+    d, checks = os.path.abspath(sys.argv[1].rstrip('/')), sys.argv[2:]
+    name = os.path.basename(d)
+    wt = f'/tmp/nawt-{name}-{os.getpid()}'
+    scratch = f'/tmp/naev-{name}-{os.getpid()}'
+    subprocess.run(['git', '-C', '/repo', 'worktree', 'add', '--detach', '-q', wt, 'HEAD'], check=True)
     try:
+        ap = subprocess.run(['git', '-C', wt, 'apply', os.path.join(d, 'patch.diff')], capture_output=True, text=True)
+        if ap.returncode:
+            print('patch does not apply:', ap.stderr[-300:])
+            return 2
+        os.makedirs(os.path.join(scratch, 'evidence'), exist_ok=True)
+        env = dict(os.environ, PANE_VERIF_REPO=wt, PANE_VERIF_EVIDENCE=os.path.join(scratch, 'evidence'),
+                   PANE_VERIF_REPLAYS=os.path.join(scratch, 'replays'))
         for c in checks:
-            p = subprocess.run([os.path.join(VERIF, 'check'), c, '--tier', 'quick'], capture_output=True, text=True, cwd=VERIF)
+            p = subprocess.run([os.path.join(VERIF, 'check'), c, '--tier', 'quick'], capture_output=True, text=True, cwd=VERIF, env=env)
             v = [ln for ln in p.stdout.splitlines() if ln.startswith('VIOLATION')]
-            print(f'{os.path.basename(d)} {c}: ' + ('QUIET' if p.returncode == 0 else f'ALARM(exit {p.returncode}, {len(v)} violation lines)'))
+            print(f'{name} {c}: ' + ('QUIET' if p.returncode == 0 else f'ALARM(exit {p.returncode}, {len(v)} violation lines)'), flush=True)
             if p.returncode:
                 for ln in [x for x in p.stdout.splitlines() if 'signature' in x][:5]:
                     print('    ', ln.strip()[:220])
                 if p.returncode == 2:
                     print(p.stderr[-800:])
     finally:
-        subprocess.run(['git', '-C', '/repo', 'checkout', '--', '.'])
+        subprocess.run(['git', '-C', '/repo', 'worktree', 'remove', '--force', wt])
+        shutil.rmtree(scratch, ignore_errors=True)
     return 0
 
 
